@@ -154,8 +154,9 @@ def mergeTwoTimePointsV (fx : Fixes) (k : Ends) (fb pb : DateTime) (t1 : Str) (f
   | .endHasDate => if fx.endRoll then (mergeEndFixed fb pb t1 fe pe t2, c1 && c2) else mergeTwoTimePoints k fb pb t1 fe pe t2 c1 c2
   | .both => mergeTwoTimePoints k fb pb t1 fe pe t2 c1 c2
 
-/-- `merge_date_and_time_periods` after the patch: `next_day = 1 day if end_time.time() < begin_time.time()`, added to
-both end values; the end's TIMEX date follows when `date_timex == luis_date(future_time)`. -/
+/-- `merge_date_and_time_periods` after the patch: `next_day = 1 day if end_time.time() < begin_time.time() and
+date_timex == luis_date(future_time)` (a DEFINITE date only: two cross-platform spec cases pin the unrolled result for
+"Friday from 23 to 4"), added to both end values; then the end's TIMEX date is `luis_date` of the rolled end. -/
 def mergeDateAndTimePeriodFixed (fd pd : DateTime) (dateTimex tpTimex : Str) (bt et : DateTime) (tpAmPm : Bool) : Res × Bool :=
   if tpTimex.head? ≠ some 40 then (.noResult, false)
   else
@@ -164,11 +165,10 @@ def mergeDateAndTimePeriodFixed (fd pd : DateTime) (dateTimex tpTimex : Str) (bt
     | some (a, b, p) =>
       let mk (d t : DateTime) : DateTime := withTime d.date (hourOf t) (minuteOf t) (secondOf t)
       let c := tpAmPm && decide (hourOf bt < 12) && decide (hourOf et < 12)
-      if et.secs < bt.secs then
+      if et.secs < bt.secs ∧ dateTimex = formatDate fd.date then
         match addDays (mk fd et) 1, addDays (mk pd et) 1 with
         | some fe1, some pe1 =>
-          let ed := if dateTimex = formatDate fd.date then formatDate fe1.date else dateTimex
-          (.ok (triple (dateTimex ++ a) (ed ++ b) p) (mk fd bt) fe1 (mk pd bt) pe1, c)
+          (.ok (triple (dateTimex ++ a) (formatDate fe1.date ++ b) p) (mk fd bt) fe1 (mk pd bt) pe1, c)
         | _, _ => (.raises, false)
       else (.ok (triple (dateTimex ++ a) (dateTimex ++ b) p) (mk fd bt) (mk fd et) (mk pd bt) (mk pd et), c)
 
